@@ -34,6 +34,19 @@ never an HTTP 500 (http-500:<method>), no exception escaping the direct call (rp
 documented shape, answer consistent with the daemon's group table, SHUTDOWN_STATE below RUNNING.
 (Fragmentation kinds: no-answer-to-fragmented-request, answer-depends-on-fragmentation, answer-depends-on-http-variant,
 no-answer-on-reused-connection, answer-depends-on-connection-reuse).
+Deferred calls complete (run_waits, run_waits2): every method that answers later (startProcess / stopProcess wait=true, the
+group:* / ProcessGroup / AllProcesses forms, system.multicall of them) against processes that are put into ANY of the eight states
+(with or without a spawn error) at every main-loop tick -- forced schedules on dummy processes, and two-client interleavings on
+the real Subprocess state machine (another client stops/starts, the child exits, startsecs elapse, a kill fails).  Once every
+process is in a state it need not move on from (start: not STARTING; stop: a stopped state) the HTTP response must complete
+(deferred-call-never-completes:<method>), be a documented value/fault, and be what the calls made one after another answer
+(reference = Model/Rpc.lean `seq`).  Correspondence 'wait': the real onwait callbacks in every (spawnerr, state), the defers
+test, and the callback polled along schedules vs the generated startOnwait/stopOnwait/…Defers and waitPolls.
+Log files as a state dimension (run_logstates, run_logs_real): every log-related method x the file of each channel being there /
+empty / not there yet or removed / NONE / a directory, over the wire (dummy world), and on a REAL daemon (real ServerOptions,
+Subprocess, dispatchers, loggers) never started / running / its files removed / its log directory removed: never a 500,
+documented fault codes, the documented shape of the value (value-shape:<method>, from the @return tag), SHUTDOWN_STATE below
+RUNNING, and system.multicall == the calls one by one.
 """
 import errno, inspect, os, re, socket, sys, types
 from framework import Infra
@@ -50,7 +63,9 @@ TRUSTED = [
     "addProcessGroup: Supervisor.add_process_group (after_setuid + make_group of the real configuration classes) is the seam of the model: its three outcomes (added / already active / an exception of some class) are parameters; which classes the RPC method catches and the fault it answers are generated (addGroupCatches, from the AST of the try statement) and Python's exception hierarchy is dumped from the interpreter (excMro); removeProcessGroup and reloadConfig bodies are exercised on the real daemon, not modelled",
     "asynchat's terminator scanning (which bytes of a recv() go to collect_incoming_data in which portions) is exercised through the real channel, not modelled; the invariance theorems hold for EVERY portioning, so they do not depend on it",
     "bytes.decode('utf-8') is modelled by a byte-at-a-time automaton (Unicode table 3-7); its accept/reject decisions and results are compared with CPython's on valid and damaged input (correspondence 'collect')",
-    "'never 500 / never hangs / daemon survives' is PARTIAL: proved = refused names and arity errors answer a fault without running anything, gated methods answer SHUTDOWN_STATE, log methods never raise (C16 log_rpc_never_raises), every fault name is in Faults; exercised = the real handler on every public method with arguments of the documented types",
+    "'never 500 / never hangs / daemon survives' is PARTIAL: proved = refused names and arity errors answer a fault without running anything, gated methods answer SHUTDOWN_STATE, log methods never raise (C16 log_rpc_never_raises), every fault name is in Faults, the start/stop callbacks answer in every state the process need not move on from (deferred_wait_completes), no public method returns a tuple to xmlrpc_marshal (answers_never_tuples); exercised = the real handler on every public method with arguments of the documented types",
+    "deferred waits: what one poll of the callback of startProcess/stopProcess(wait=True) answers is generated from the AST of the nested callback (whole body: if / raise RPCError(Faults.X) / return True / return NOT_DONE_YET over process.spawnerr and process.get_state(); the report-only call process.stop_report() is skipped); make_allfunc's closure and clearAllProcessLogs' clearall are exercised (C13 models make_allfunc), not modelled here; that a process leaves STARTING / reaches a stopped state is the liveness of the process state machine (C01-C04)",
+    "marshalling: xmlrpc_marshal's two tests are generated (marshal_g0/g1); xmlrpclib.dumps' assertion `len(params) == 1` for a methodresponse is modelled by hand and compared with the real function on values of every shape (correspondence 'wait': marshal ops); answerShapes is SYNTACTIC (the AST shape of every return expression reachable from a public method through returned helper calls, returned nested functions and make_allfunc); values computed elsewhere are `opaque`",
 ]
 ASSUMPTIONS = [
     "arguments have the documented XML-RPC types (other types can raise inside int()/split_namespec and are outside the statement)",
@@ -67,7 +82,13 @@ RULE = ("rec: attribute tables drawn from the kinds {bound method with (min,max)
         "surrogates / stray bytes) x every 2-piece cut, byte at a time, random cuts; groups: real daemons x {no failure, child log directory "
         "removed, ValueError injected in after_setuid / make_group} x 4 moods x {program, numprocs program, eventlistener, fcgi-program "
         "on a missing directory / busy port / good socket, unknown and non-ASCII names} x add-add-remove-remove and random sequences "
-        "with rewritten configuration + reloadConfig.  non-trivial = the name resolves or is refused by a "
+        "with rewritten configuration + reloadConfig; waits: deferred methods (single, group:*, ProcessGroup, AllProcesses, multicall of 2..4 calls) x "
+        "1..3 processes x scripts (state on arrival, state after the method's own spawn()/stop(), a state and spawn-error flag for each of 1..4 ticks, "
+        "all eight states; for a single start/stop every (after, tick 1[, tick 2]) combination) and two-client interleavings on the real Subprocess "
+        "(0..5 events of: stop/start by another client, child exit, timers running out, kill failing; then the world comes to rest); "
+        "log states: every log-related method x {present, empty, never/removed, NONE, directory} per channel and for the main log, offsets/lengths from "
+        "small windows and 32-bit edges, 4 moods; real daemon x {fresh, running, running-removed, running-dir-removed} x 4 programs (explicit files, NONE, AUTO, "
+        "redirect_stderr).  non-trivial = the name resolves or is refused by a "
         "rule other than 'unknown namespace'; distinct = distinct (table-hash, name, argument count/values, mood)")
 
 EDGES = [0, 1, -1, 2**31 - 1, -2**31, 2**31 - 2, 7]
@@ -753,8 +774,11 @@ class Wire:
         ch.log_info = lambda msg, level='info': self.said.append(msg)          # asyncore's default prints
         self.b_blocking = True
 
-    def exchange(self, raw, cuts=None, between_polls=None, max_polls=80):
-        """-> (bytes received, polls, deferred?, 'never-completes' | None)"""
+    def exchange(self, raw, cuts=None, between_polls=None, max_polls=80, ticks=None):
+        """-> (bytes received, polls, deferred?, 'never-completes' | None)
+        ticks: the main loop's iterations as the daemon has them: the request is dispatched and, when its answer is deferred,
+        the producer is polled once at once (push_with_producer -> initiate_send -> refill_buffer -> more()); from then on it
+        is polled once per loop iteration, and ticks(i) is everything else that happens before the poll of iteration i."""
         import select
         from supervisor.medusa import asyncore_25 as asyncore
         from supervisor import xmlrpc
@@ -773,7 +797,10 @@ class Wire:
                 asyncore.read(ch)
         deferred = any(isinstance(p, xmlrpc.DeferredXMLRPCResponse) for p in self.pushed)
         b.setblocking(False)
+        tickno = 0
         for _ in range(max_polls + 20):
+            if ticks and any(isinstance(p, xmlrpc.DeferredXMLRPCResponse) and not p.finished for p in self.pushed):
+                ticks(tickno); tickno += 1
             ch.delay = None          # refill_buffer sets it to the producer's delay (possibly 0.0) on NOT_DONE_YET, to False on data
             if not closed:
                 ch.initiate_send()
@@ -874,14 +901,14 @@ def judge_response(ctx, method, out, deferred, inp, cuts=None, noresp_kind=None,
 
 
 def wire_request(handler, method, params, between_polls=None, max_polls=80, replay_input=None, cuts=None, http='1.1',
-                 noresp_kind=None):
+                 noresp_kind=None, ticks=None):
     """One XML-RPC request on a fresh connection (see Wire), delivered in the pieces given by `cuts`.
     -> dict(status, headers, body, cl, polls, deferred, answer, fault_string)"""
     ctx = _CTX[0]
     w = Wire(handler)
     try:
         raw, hlen = build_raw(method, params, http)
-        out, polls, deferred, never = w.exchange(raw, cuts, between_polls, max_polls)
+        out, polls, deferred, never = w.exchange(raw, cuts, between_polls, max_polls, ticks)
         said = server_said(w)
     finally:
         w.close()
@@ -980,6 +1007,8 @@ def e2e_case(ctx, method, params, mood=1, extra=None, prepare=None):
     """one request over the wire + the monitors: no 5xx/4xx, documented fault code, parseable, value == the direct call's"""
     from supervisor import xmlrpc
     codes = set(v for k, v in vars(xmlrpc.Faults).items() if not k.startswith('_'))
+    if prepare is None and (extra or {}).get('logstate'):
+        prepare = log_prepare(ctx, extra['logstate'])
     sup, iface, h = e2e_world(ctx, mood)
     if prepare:
         prepare(sup)
@@ -999,11 +1028,15 @@ def e2e_case(ctx, method, params, mood=1, extra=None, prepare=None):
     elif not (extra or {}).get('no_direct'):
         # the value on the wire is the value the direct call gives (same world rebuilt)
         sup2, iface2, h2 = e2e_world(ctx, mood)
+        if prepare:
+            prepare(sup2)
         direct = direct_call(h2.rpcinterface, method, params)
         ctx.count('e2e:compared-with-direct')
         if not same_as_direct(last, direct):
             ctx.violation('wire-answer-differs-from-direct:' + method, '%s%r: on the wire %r %r, the direct call gives %r'
                           % (method, tuple(params), last.get('answer'), last.get('fault_string'), direct), inp)
+    if out[0] == 'value' and not doc_shape_ok(method, params, out[1]):
+        ctx.violation('value-shape:' + method, '%s%r answered %s, which is not the documented shape' % (method, tuple(params), short(out[1])), inp)
     if (extra or {}).get('expect') is not None and out != tuple(extra['expect']):
         ctx.violation(extra['expect_kind'], '%s%r over the wire answered %r, required %r' % (method, tuple(params), out, tuple(extra['expect'])), inp)
     if (extra or {}).get('frag', True):
@@ -1013,24 +1046,31 @@ def e2e_case(ctx, method, params, mood=1, extra=None, prepare=None):
     return out
 
 
-def e2e_multi_case(ctx, picks):
+def e2e_multi_case(ctx, picks, logstate=None):
     """system.multicall over the wire: element for element what single requests return"""
     from supervisor import xmlrpc
+    prepare = log_prepare(ctx, logstate) if logstate else None
     sup, iface, h = e2e_world(ctx)
+    if prepare:
+        prepare(sup)
     mparams = [[{'methodName': m, 'params': p} for m, p in picks]]
     out = e2e_request(h, 'system.multicall', mparams)
     mlast = e2e_request.last
     want = []
     for m, p in picks:
         sup2, iface2, h2 = e2e_world(ctx)
+        if prepare:
+            prepare(sup2)
         want.append(('fault', xmlrpc.Faults.INCORRECT_PARAMETERS) if m == 'system.multicall' else e2e_request(h2, m, p))
     got = [('fault', x['faultCode']) if isinstance(x, dict) and 'faultCode' in x else ('value', x) for x in out[1]] if out[0] == 'value' else out
     ctx.count('e2e:multicall'); ctx.case_done(('e2e-multi', repr(picks)), nontrivial=True)
-    norm = lambda o: ('value', 'pid') if o[0] == 'value' and isinstance(o[1], int) and not isinstance(o[1], bool) else o
+    # (a pid is the pid of whoever answers; `now` / `description` of the info structs are wall-clock readings)
+    norm = lambda o: ('value', 'pid') if o[0] == 'value' and isinstance(o[1], int) and not isinstance(o[1], bool) else ('value', norm_value(o[1])) if o[0] == 'value' else o
     if [norm(g) for g in got] != [norm(w) for w in want]:
-        ctx.violation('multicall-differs-from-sequential', 'multicall over the wire answered %r, single requests answer %r' % (got, want),
-                      {'part': 'e2e-multi', 'calls': [[m, p] for m, p in picks]})
-    frag_variants(ctx, 'system.multicall', mparams, 1, mlast)        # the same multicall cut into pieces answers the same
+        ctx.violation('multicall-differs-from-sequential', 'multicall over the wire answered %r, single requests answer %r%s' % (
+                          got, want, ' (log files: %s)' % logstate if logstate else ''),
+                      {'part': 'e2e-multi', 'calls': [[m, p] for m, p in picks], 'logstate': logstate})
+    frag_variants(ctx, 'system.multicall', mparams, 1, mlast, prepare)        # the same multicall cut into pieces answers the same
 
 
 # =================================================================================================
@@ -1099,6 +1139,8 @@ def frag_deliver(ctx, method, params, mood, cuts, http, base_key, prepare=None, 
     inp = {'part': 'e2e-frag', 'method': method, 'params': params, 'mood': mood, 'cuts': list(cuts or []), 'http': http}
     if regression:
         inp['regression'] = regression
+    if getattr(prepare, 'logstate', None):
+        inp['logstate'] = prepare.logstate
     res = wire_request(h, method, params, replay_input=inp, cuts=cuts or None, http=http, noresp_kind=NOFRAG if cuts else None)
     npieces = len(cuts or []) + 1
     ctx.count('frag:deliveries'); ctx.count('frag:pieces=%s' % (npieces if npieces < 4 else '4..9' if npieces < 10 else '10+'))
@@ -1863,6 +1905,832 @@ def run_collect(ctx):
     ctx.correspond('collect', [('case rpc', ops)], [il])
 
 
+
+# =================================================================================================
+# deferred calls complete: every process state at every poll
+#   "it never produces ... a response that never completes", over "every daemon mood and process state in which the call
+#   arrives" and "calls that answer later (deferred)".  A call that answers later is polled once per main-loop tick; between
+#   two polls ANYTHING may happen to the process (another client stops or starts it, the child dies, a kill fails).  So the
+#   population is: every deferred method (startProcess / stopProcess wait=true, their group:* forms, start/stopProcessGroup,
+#   start/stopAllProcesses, system.multicall of those) x a schedule giving every process a state (any of the eight, with or
+#   without a spawn error) at every tick.  The monitor is the property's own reading: once every process is in a state it need
+#   not move on from (start: anything but STARTING; stop: a stopped state) and stays there, the HTTP response must complete
+#   within a bound; it must be a value of the documented shape or a documented fault, never a 500; and it must be what the same
+#   calls made one after another answer (the reference is Model/Rpc.lean `seq`, which multicall_sequential proves equal).
+# =================================================================================================
+def pstate_codes():
+    from supervisor.states import ProcessStates
+    return sorted(v for k, v in vars(ProcessStates).items() if not k.startswith('_') and isinstance(v, int))
+
+
+def must_move_on(kind, se, st):
+    """may a call of this kind go on waiting for a process that looks like this?  (the statement's reading, not the code's:
+    a start waits only for a STARTING process without a spawn error; a stop only for one that is not yet stopped)"""
+    from supervisor.states import ProcessStates as P
+    if kind == 'start':
+        return (not se) and st == P.STARTING
+    return st not in (P.STOPPED, P.EXITED, P.FATAL, P.UNKNOWN)
+
+
+def wait_kind(method):
+    m = method.split('.')[-1]
+    return 'start' if m.startswith('start') else 'stop' if m.startswith('stop') else None
+
+
+class WaitWorld:
+    """the real interface objects (handler, root, supervisor + system namespaces) over a group 'grp' of dummy processes
+    whose state follows a script: {'name', 'initial', 'on_spawn', 'on_stop', 'traj': [[spawnerr 0|1, state], ...]}:
+    spawn()/stop() put the process into on_spawn/on_stop, tick k puts it into traj[min(k, len-1)]"""
+    def __init__(self, scripts):
+        from supervisor.tests.base import DummyOptions, DummyPConfig, PopulatedDummySupervisor, DummyPGroupConfig
+        from supervisor.rpcinterface import SupervisorNamespaceRPCInterface
+        from supervisor import xmlrpc
+        opts = DummyOptions()
+        pconfigs = [DummyPConfig(opts, sc['name'], '/bin/true', priority=10 + i) for i, sc in enumerate(scripts)]
+        sup = self.sup = PopulatedDummySupervisor(opts, 'grp', *pconfigs)
+        opts.process_group_configs = [DummyPGroupConfig(opts, 'grp', pconfigs=pconfigs)]
+        opts.mood = 1
+        self.iface = SupervisorNamespaceRPCInterface(sup)
+        self.subs = [('supervisor', self.iface)]
+        self.subs.append(('system', xmlrpc.SystemNamespaceRPCInterface(self.subs)))
+        self.root = xmlrpc.RootRPCInterface(self.subs)
+        self.handler = xmlrpc.supervisor_xmlrpc_handler(sup, self.subs)
+        self.scripts = scripts
+        self.procs = []
+        for sc in scripts:
+            pr = sup.process_groups['grp'].processes[sc['name']]
+            pr.state = sc['initial']
+            pr.spawn = (lambda pr=pr, st=sc['on_spawn']: setattr(pr, 'state', st))
+            pr.stop = (lambda pr=pr, st=sc['on_stop']: setattr(pr, 'state', st))
+            self.procs.append(pr)
+
+    def tick(self, k):
+        for sc, pr in zip(self.scripts, self.procs):
+            if sc['traj']:
+                se, st = sc['traj'][min(k, len(sc['traj']) - 1)]
+                pr.state = st
+                pr.spawnerr = 'spawn error' if se else None
+
+
+def seq_reference(root, calls, tick, bound):
+    """the calls made one after another, each polled to completion before the next is made -- Model/Rpc.lean `seq`: call i+1
+    is made at the invocation at which call i answered; between invocation k and k+1 the environment acts: nothing for k = 0
+    (the daemon polls a deferred producer once at once, in the loop iteration that dispatched the request), tick(k-1) after.
+    -> ([('value', v) | ('fault', code, text)], [polls of each call]) ; a call still pending after `bound` polls: 'never'"""
+    from supervisor import xmlrpc
+    from supervisor.http import NOT_DONE_YET
+    k, out, polls_of = 0, [], []
+    for name, params in calls:
+        polls = 0
+        try:
+            if name == 'system.multicall':
+                raise xmlrpc.RPCError(xmlrpc.Faults.INCORRECT_PARAMETERS)
+            v = xmlrpc.traverse(root, name, tuple(params))
+            while isinstance(v, types.FunctionType):
+                if k > 0:
+                    tick(k - 1)
+                k += 1
+                r = v()
+                if r is NOT_DONE_YET:
+                    polls += 1
+                    if polls > bound + 2:
+                        return out + ['never'], polls_of + [polls]
+                    continue
+                v = r
+            out.append(('value', norm_value(v)))
+        except xmlrpc.RPCError as e:
+            out.append(('fault', e.code, e.text))
+        except Exception as e:
+            out.append(('fault', xmlrpc.Faults.FAILED, type(e).__name__))
+        polls_of.append(polls)
+    return out, polls_of
+
+
+INFO_STRUCT_KEYS = {'name', 'group', 'status', 'description'}
+
+
+def doc_shape_ok(method, params, v):
+    """is the value what the docstring of the method promises?  (@return <type>; the process-control methods document
+    `group:*` as a name, which answers the array of the group form)"""
+    from supervisor.xmlrpc import gettags, Faults
+    from supervisor.rpcinterface import SupervisorNamespaceRPCInterface
+    from supervisor.xmlrpc import SystemNamespaceRPCInterface
+    ns, _, m = method.partition('.')
+    func = getattr({'supervisor': SupervisorNamespaceRPCInterface, 'system': SystemNamespaceRPCInterface}.get(ns), m, None)
+    ret = next((t for t in gettags(getattr(func, '__doc__', None) or '') if t[1] == 'return'), None)
+    if ret is None:
+        return True
+    ty, text = ret[2], ' '.join(str(x) for x in ret[3:])
+    codes = set(c for k, c in vars(Faults).items() if not k.startswith('_'))
+    def info_structs(x):
+        return isinstance(x, list) and all(isinstance(e, dict) and set(e) >= INFO_STRUCT_KEYS and isinstance(e['status'], int)
+                                           and not isinstance(e['status'], bool) and e['status'] in codes
+                                           and isinstance(e['name'], str) and isinstance(e['group'], str) and isinstance(e['description'], str) for e in x)
+    if m in ('startProcess', 'stopProcess', 'signalProcess') and params and isinstance(params[0], str) and (params[0].endswith(':*') or params[0].endswith(':')):
+        return info_structs(v)
+    if ty == 'boolean':
+        return isinstance(v, bool)
+    if ty == 'string':
+        return isinstance(v, str)
+    if ty == 'int':
+        return isinstance(v, int) and not isinstance(v, bool)
+    if ty == 'struct':
+        return isinstance(v, dict)
+    if ty == 'array':
+        if not isinstance(v, list):
+            return False
+        if 'string bytes, int offset, bool overflow' in text:
+            return len(v) == 3 and isinstance(v[0], str) and isinstance(v[1], int) and not isinstance(v[1], bool) and isinstance(v[2], bool)
+        if 'status info structs' in text or m in ('signalProcessGroup',):
+            return info_structs(v)
+        return True
+    return True
+
+
+def wait_settled(calls, scripts):
+    kinds = set(k for k in (wait_kind(m) for m, _ in calls) if k)
+    return all(not must_move_on(k, *sc['traj'][-1]) for sc in scripts for k in kinds) if all(sc['traj'] for sc in scripts) else False
+
+
+def wait_case(ctx, calls, scripts, cuts=None, regression=None, lines=None):
+    """one deferred call (or a system.multicall of several calls) against processes that follow `scripts`, over the wire,
+    and the same calls one after another on a twin world"""
+    from supervisor import xmlrpc
+    codes = set(v for k, v in vars(xmlrpc.Faults).items() if not k.startswith('_'))
+    multi = len(calls) != 1
+    method, params = ('system.multicall', [[{'methodName': m, 'params': p} for m, p in calls]]) if multi else calls[0]
+    if cuts == 'auto':
+        cuts = auto_cuts(ctx.rng, method, params)
+    inp = {'part': 'wait', 'calls': [[m, p] for m, p in calls], 'scripts': scripts, 'cuts': cuts}
+    if regression:
+        inp['regression'] = regression
+    bound = max(len(sc['traj']) for sc in scripts) + 2 * len(calls) + 3
+    settled = wait_settled(calls, scripts)
+    w = WaitWorld(scripts)
+    res = wire_request(w.handler, method, params, None, max_polls=bound, replay_input=inp, cuts=cuts or None, ticks=w.tick,
+                       noresp_kind=NOFRAG if cuts else None)
+    t = WaitWorld(scripts)
+    ref, ref_polls = seq_reference(t.root, calls, t.tick, bound)
+    label = 'system.multicall' if multi else method
+    ctx.count('wait:' + ('multicall' if multi else method.split('.')[-1])); ctx.count('wait:deferred' if res.get('deferred') else 'wait:immediate')
+    ctx.count('wait:polls', res.get('polls', 0))
+    for sc in scripts:
+        for se, st in sc['traj']:
+            ctx.count('wait:state-at-a-tick=%d%s' % (st, '+spawnerr' if se else ''))
+    ctx.case_done(('wait', repr(calls), repr(scripts), repr(cuts)), nontrivial=bool(res.get('deferred')))
+    what = '%s%s with the processes following %s' % (method, short(tuple(params)), short([(sc['name'], sc['initial'], sc['on_spawn'], sc['on_stop'], sc['traj']) for sc in scripts], 300))
+    if lines is not None and not multi and wait_kind(method) and ref and ref[-1] != 'never' and ref_polls[0] > 0 and len(scripts) == 1 \
+            and not (params[0].endswith(':*') or params[0].endswith(':')) and method.split('.')[-1] in ('startProcess', 'stopProcess'):
+        # the callback of a single start/stop, polled along the schedule: Model/Rpc.lean waitPolls
+        a = ref[0]
+        after = scripts[0]['on_spawn' if wait_kind(method) == 'start' else 'on_stop']
+        lines.append(('wait %s %d %s' % (wait_kind(method), bound + 4, ','.join('%d:%d' % (se, st) for se, st in [[0, after]] + scripts[0]['traj'])),
+                      'answer %s poll=%d' % ('done' if a == ('value', True) else 'fault %d' % a[1] if a[0] == 'fault' else 'other', ref_polls[0])))
+    if res.get('status') == 'never-completes':
+        if settled:
+            ctx.violation('deferred-call-never-completes:' + label,
+                          '%s: no response after %d polls although every process has been in a state it need not move on from since tick %d'
+                          % (what, res['polls'], max(len(sc['traj']) for sc in scripts) - 1), inp)
+        else:
+            ctx.count('wait:pending-on-a-process-that-must-move-on')
+        if ref and ref[-1] != 'never' and settled:
+            pass
+        return res
+    if res.get('status') == 500:
+        ctx.violation('http-500:' + method, '%s produced an HTTP 500' % what, inp)
+        return res
+    if res.get('status') != 200:
+        if res.get('status') != 'no-response':
+            ctx.violation('http-error:' + method, '%s produced HTTP %s' % (what, res.get('status')), inp)
+        return res
+    ans = res.get('answer')
+    if ans[0] == 'unparseable':
+        ctx.violation('response-unparseable:' + method, '%s: the response body cannot be parsed (%s)' % (what, ans[1]), inp)
+        return res
+    # ---- documented fault codes, documented shapes
+    def el(x):
+        return ('fault', x['faultCode']) if isinstance(x, dict) and 'faultCode' in x else ('value', x)
+    raw = [el(x) for x in ans[1]] if (multi and ans[0] == 'value' and isinstance(ans[1], list)) else [(ans[0], ans[1])]
+    for (m, p), g in zip(calls, raw):
+        if g[0] == 'fault' and g[1] not in codes:
+            ctx.violation('undocumented-fault-code', '%s: %s answered fault %r' % (what, m, g[1]), inp)
+        elif g[0] == 'value' and not doc_shape_ok(m, p, g[1]):
+            ctx.violation('value-shape:' + m, '%s: %s answered %s' % (what, m, short(g[1])), inp)
+    got = [(k, v if k == 'fault' else norm_value(v)) for k, v in raw]
+    # ---- what the same calls made one after another answer
+    want = [(r[0], r[1]) if r != 'never' else ('never',) for r in ref]
+    if got != want:
+        ctx.violation('multicall-differs-from-sequential' if multi else 'wire-answer-differs-from-direct:' + method,
+                      '%s answered %s; the calls made one after another (each polled to completion) answer %s' % (what, short(got, 300), short(want, 300)), inp)
+    return res
+
+
+def gen_script(rng, name, kind=None, maxlen=4):
+    from supervisor.states import ProcessStates as P
+    codes = pstate_codes()
+    if kind == 'start':
+        initial = rng.choice([P.STOPPED, P.EXITED, P.FATAL] * 3 + codes)
+    elif kind == 'stop':
+        initial = rng.choice([P.RUNNING, P.STARTING, P.BACKOFF] * 3 + codes)
+    else:
+        initial = rng.choice(codes)
+    on_spawn = rng.choice([P.STARTING] * 4 + codes)
+    on_stop = rng.choice([P.STOPPING] * 4 + codes)
+    traj = [[1 if rng.random() < 0.08 else 0, rng.choice(codes)] for _ in range(rng.randrange(1, maxlen + 1))]
+    return {'name': name, 'initial': initial, 'on_spawn': on_spawn, 'on_stop': on_stop, 'traj': traj}
+
+
+WAIT_GROUP_FORMS = [('supervisor.startProcess', ['grp:*', True]), ('supervisor.startProcessGroup', ['grp', True]), ('supervisor.startAllProcesses', [True]),
+                    ('supervisor.stopProcess', ['grp:*', True]), ('supervisor.stopProcessGroup', ['grp', True]), ('supervisor.stopAllProcesses', [True]),
+                    ('supervisor.startProcess', ['grp:', True]), ('supervisor.stopAllProcesses', []), ('supervisor.startProcessGroup', ['grp'])]
+
+
+def onwait_impl(kind, se, st):
+    """one poll of the REAL callback of startProcess/stopProcess(wait=True) with the process forced into (spawnerr, state)"""
+    from supervisor import xmlrpc
+    from supervisor.http import NOT_DONE_YET
+    from supervisor.states import ProcessStates as P
+    sc = {'name': 'p0', 'initial': P.STOPPED if kind == 'start' else P.RUNNING, 'on_spawn': P.STARTING, 'on_stop': P.STOPPING, 'traj': []}
+    w = WaitWorld([sc])
+    cb = xmlrpc.traverse(w.root, 'supervisor.%sProcess' % kind, ('grp:p0', True))
+    if not isinstance(cb, types.FunctionType):
+        return 'not-deferred'
+    w.procs[0].state = st
+    w.procs[0].spawnerr = 'spawn error' if se else None
+    try:
+        r = cb()
+    except xmlrpc.RPCError as e:
+        return 'fault %d' % e.code
+    except Exception:
+        return 'other'
+    return 'again' if r is NOT_DONE_YET else 'done' if r is True else 'other'
+
+
+def defers_impl(kind, wait, st):
+    """does the REAL method answer later when its own spawn()/stop() leaves the process in state `st`?"""
+    from supervisor import xmlrpc
+    from supervisor.states import ProcessStates as P
+    sc = {'name': 'p0', 'initial': P.STOPPED if kind == 'start' else P.RUNNING, 'on_spawn': st, 'on_stop': st, 'traj': []}
+    w = WaitWorld([sc])
+    try:
+        v = xmlrpc.traverse(w.root, 'supervisor.%sProcess' % kind, ('grp:p0', bool(wait)))
+    except xmlrpc.RPCError as e:
+        return 'fault %d' % e.code
+    return '1' if isinstance(v, types.FunctionType) else '0'
+
+
+def marshal_impl(v):
+    """the REAL xmlrpc_marshal on a value: the response carries the value / its only element / the marshaller's assertion trips"""
+    from supervisor.xmlrpc import xmlrpc_marshal
+    from supervisor.compat import xmlrpclib
+    try:
+        body = xmlrpc_marshal(v)
+    except AssertionError:
+        return 'assert'
+    except Exception as e:
+        return 'raises ' + type(e).__name__
+    got = xmlrpclib.loads(body)[0][0]
+    if got == xmlrpclib.loads(xmlrpclib.dumps((v,), methodresponse=True))[0][0]:
+        return 'value'
+    if isinstance(v, tuple) and len(v) == 1 and got == xmlrpclib.loads(xmlrpclib.dumps((v[0],), methodresponse=True))[0][0]:
+        return 'element'
+    return 'other'
+
+
+def run_waits(ctx):
+    from supervisor.states import ProcessStates as P
+    rng = ctx.rng
+    codes = pstate_codes()
+    lines = []
+    # ---- xmlrpc_marshal on values of every shape: Model/Rpc.lean marshalValue (generated marshal_g0/g1)
+    for shape, vals in (('scalar', [True, 'x', 5, '']), ('list', [['', 0, False], []]), ('dict', [{'a': 1}]), ('tuple0', [()]), ('tuple1', [(5,), (['', 0, False],)]),
+                        ('tuple2', [(1, 2)]), ('tuple3', [('', 0, False)])):
+        for v in vals:
+            lines.append(('marshal ' + shape, marshal_impl(v)))
+            ctx.case_done(('marshal', shape, repr(v)), nontrivial=True)
+    # ---- the callbacks themselves, every (spawn error, state): Model/Rpc.lean onwait / defers (generated startOnwait, stopOnwait ...)
+    for kind in ('start', 'stop'):
+        for se in (0, 1):
+            for st in codes + [5, -1]:
+                lines.append(('onwait %s %d %d' % (kind, se, st), onwait_impl(kind, se, st)))
+                ctx.case_done(('onwait', kind, se, st), nontrivial=True)
+        for wait in (0, 1):
+            for st in codes:
+                lines.append(('defers %s %d 0 %d' % (kind, wait, st), defers_impl(kind, wait, st)))
+                ctx.case_done(('defers', kind, wait, st), nontrivial=True)
+    # ---- regression corpus: seeded change C12-5 -- start and wait, stopped by another client while STARTING (STOPPING, then
+    #      STOPPED for good); and the same ending UNKNOWN after a failed kill
+    for final in (P.STOPPED, P.UNKNOWN, P.STOPPING, P.EXITED, P.FATAL, P.BACKOFF, P.RUNNING):
+        for calls in ([('supervisor.startProcess', ['grp:p0', True])], [('supervisor.startProcess', ['grp:p0'])],
+                      [('supervisor.getPID', []), ('supervisor.startProcess', ['grp:p0', True]), ('supervisor.getState', [])],
+                      [('supervisor.startProcessGroup', ['grp', True])]):
+            wait_case(ctx, calls, [{'name': 'p0', 'initial': P.STOPPED, 'on_spawn': P.STARTING, 'on_stop': P.STOPPING,
+                                    'traj': [[0, P.STARTING], [0, P.STOPPING], [0, final]]}], regression='C12-5', lines=lines)
+    # ---- a single start / stop: every state after the method's own spawn()/stop() x every state at the next ticks
+    deep = ctx.tier != 'quick' or ctx.boost > 1
+    for kind, initials in (('start', [P.STOPPED, P.EXITED]), ('stop', [P.RUNNING, P.STARTING])):
+        m = 'supervisor.%sProcess' % kind
+        for initial in (initials if deep else initials[:1]):
+            for after in codes:
+                for s1 in codes:
+                    for s2 in (codes if deep else [rng.choice(codes)]) + [None]:
+                        se = 1 if rng.random() < 0.06 else 0
+                        traj = [[se, s1]] + ([[0, s2]] if s2 is not None else [])
+                        if rng.random() < 0.3:
+                            traj = [[0, after]] * rng.randrange(1, 3) + traj
+                        wait_case(ctx, [(m, ['grp:p0', True])], [{'name': 'p0', 'initial': initial, 'on_spawn': after, 'on_stop': after, 'traj': traj}],
+                                  cuts='auto' if rng.random() < 0.1 else None, lines=lines)
+        for initial in codes:         # every state in which the call arrives (most are refused at once)
+            wait_case(ctx, [(m, ['grp:p0', True])], [gen_script(rng, 'p0') | {'initial': initial}], lines=lines)
+    # ---- the group / all forms over 1..3 processes
+    for _ in range(ctx.n(120, 1500)):
+        m, p = rng.choice(WAIT_GROUP_FORMS)
+        scripts = [gen_script(rng, 'p%d' % i, wait_kind(m)) for i in range(rng.randrange(1, 4))]
+        wait_case(ctx, [(m, p)], scripts, cuts='auto' if rng.random() < 0.1 else None)
+    # ---- system.multicall of calls that answer later, between calls that answer at once
+    for _ in range(ctx.n(120, 1500)):
+        n = rng.randrange(1, 4)
+        scripts = [gen_script(rng, 'p%d' % i) for i in range(n)]
+        calls = []
+        for _ in range(rng.randrange(2, 5)):
+            r = rng.random()
+            if r < 0.55:
+                calls.append(('supervisor.%sProcess' % rng.choice(['start', 'stop']), ['grp:p%d' % rng.randrange(n), rng.random() < 0.85]))
+            elif r < 0.75:
+                calls.append(rng.choice(WAIT_GROUP_FORMS))
+            else:
+                calls.append(rng.choice([('supervisor.getPID', []), ('supervisor.getState', []), ('supervisor.getProcessInfo', ['grp:p0']),
+                                         ('supervisor.nosuch', []), ('system.multicall', [[]]), ('supervisor.signalProcess', ['grp:p0', 'BOGUS'])]))
+        wait_case(ctx, calls, scripts, cuts='auto' if rng.random() < 0.1 else None)
+    seen, ops, il = set(), [], []
+    for op, line in lines:
+        if (op, line) not in seen:
+            seen.add((op, line)); ops.append(op); il.append(line)
+    ctx.count('wait:model-cases', len(ops))
+    ctx.sample({'case': 'rpc wait', 'ops': ops[:2] + ops[-2:], 'impl': il[:2] + il[-2:]})
+    ctx.correspond('wait', [('case rpc', ops)], [il])
+
+
+
+# ---- two clients and the kernel: the REAL Subprocess state machine (fake fork/kill of supervisor.tests.base) -----------------
+#   Client A makes a call that answers later; while it waits, other clients make calls (stop / start without waiting), children
+#   exit, startsecs elapse, a kill fails -- one event per main-loop iteration -- and finally the world comes to rest (every
+#   killed child is reaped, every timer has run out).  From then on nothing can change any more: A's response must complete.
+SETTLED_STATES = None
+
+
+class TwoClientWorld:
+    def __init__(self, names, pre):
+        from supervisor.tests.base import DummyOptions, DummyPConfig, PopulatedDummySupervisor, DummyPGroupConfig
+        from supervisor.rpcinterface import SupervisorNamespaceRPCInterface
+        from supervisor.process import Subprocess
+        from supervisor import xmlrpc, events
+        events.clear()
+        opts = self.opts = DummyOptions()
+        pids = iter(range(4000, 9000))
+        opts.fork = lambda: next(pids)
+        pconfigs = [DummyPConfig(opts, n, '/bin/cat', priority=10 + i, startsecs=10, startretries=2) for i, n in enumerate(names)]
+        sup = self.sup = PopulatedDummySupervisor(opts, 'grp', *pconfigs)
+        grp = sup.process_groups['grp']
+        self.procs = {}
+        for pc in pconfigs:
+            pr = Subprocess(pc)
+            pr.group = grp
+            grp.processes[pc.name] = pr
+            self.procs[pc.name] = pr
+        opts.process_group_configs = [DummyPGroupConfig(opts, 'grp', pconfigs=pconfigs)]
+        opts.mood = 1
+        self.iface = SupervisorNamespaceRPCInterface(sup)
+        self.subs = [('supervisor', self.iface)]
+        self.subs.append(('system', xmlrpc.SystemNamespaceRPCInterface(self.subs)))
+        self.root = xmlrpc.RootRPCInterface(self.subs)
+        self.handler = xmlrpc.supervisor_xmlrpc_handler(sup, self.subs)
+        for ev in pre:
+            self.event(ev)
+
+    def event(self, ev):
+        """one thing that happens in one main-loop iteration"""
+        from supervisor import xmlrpc
+        from supervisor.states import ProcessStates as P
+        kind = ev[0]
+        if kind == 'rpc':                       # another client's call (it does not wait)
+            try:
+                xmlrpc.traverse(self.root, ev[1], tuple(ev[2]))
+            except xmlrpc.RPCError:
+                pass
+        elif kind == 'exit':                    # the child is gone and is reaped
+            pr = self.procs[ev[1]]
+            if pr.pid:
+                pr.finish(pr.pid, ev[2])
+        elif kind == 'age':                     # startsecs / the backoff delay / stopwaitsecs run out
+            pr = self.procs[ev[1]]
+            pr.laststart -= 1000
+            if pr.delay:
+                pr.delay = 1
+            pr.transition()
+        elif kind == 'killfail':                # os.kill starts / stops failing
+            self.opts.kill_exception = OSError(errno.EPERM, 'Operation not permitted') if ev[1] else None
+
+    def rest(self):
+        """the world comes to rest: killed children are reaped, timers run out, until nothing changes"""
+        from supervisor.states import ProcessStates as P
+        self.opts.kill_exception = None
+        for _ in range(12):
+            for pr in self.procs.values():
+                if pr.state == P.STOPPING and pr.pid:
+                    pr.finish(pr.pid, 15)
+                elif pr.state in (P.STARTING, P.BACKOFF):
+                    pr.laststart -= 1000
+                    if pr.delay:
+                        pr.delay = 1
+                    pr.transition()
+
+    def states(self):
+        return dict((n, pr.state) for n, pr in self.procs.items())
+
+
+def two_client_case(ctx, calls, names, pre, events, cuts=None, regression=None):
+    """calls (client A; several = one system.multicall) over the wire; events[i] happens in main-loop iteration i while A waits,
+    then the world comes to rest"""
+    from supervisor import xmlrpc
+    from supervisor.states import ProcessStates as P
+    codes = set(v for k, v in vars(xmlrpc.Faults).items() if not k.startswith('_'))
+    multi = len(calls) != 1
+    method, params = ('system.multicall', [[{'methodName': m, 'params': p} for m, p in calls]]) if multi else calls[0]
+    inp = {'part': 'wait2', 'calls': [[m, p] for m, p in calls], 'names': names, 'pre': pre, 'events': events, 'cuts': cuts}
+    if regression:
+        inp['regression'] = regression
+    bound = len(events) + 3 * len(calls) * len(names) + 6
+    def ticker(w):
+        def tick(k):
+            if k < len(events):
+                w.event(events[k])
+            elif k == len(events):
+                w.rest()
+        return tick
+    w = TwoClientWorld(names, pre)
+    res = wire_request(w.handler, method, params, None, max_polls=bound, replay_input=inp, cuts=cuts or None, ticks=ticker(w))
+    final = w.states()
+    t = TwoClientWorld(names, pre)
+    ref, _ = seq_reference(t.root, calls, ticker(t), bound)
+    from supervisor import events as sevents
+    sevents.clear()
+    kinds = set(k for k in (wait_kind(m) for m, _ in calls) if k)
+    settled = all(not must_move_on(k, False, st) for st in final.values() for k in kinds)
+    label = 'system.multicall' if multi else method
+    ctx.count('wait2:' + ('multicall' if multi else method.split('.')[-1])); ctx.count('wait2:deferred' if res.get('deferred') else 'wait2:immediate')
+    for st in final.values():
+        ctx.count('wait2:final-state=%d' % st)
+    ctx.case_done(('wait2', repr(calls), repr(names), repr(pre), repr(events)), nontrivial=bool(res.get('deferred')))
+    what = '%s%s while %s happens (processes %s, before the call: %s)' % (method, short(tuple(params)), short(events, 300), names, short(pre))
+    if res.get('status') == 'never-completes':
+        if settled:
+            ctx.violation('deferred-call-never-completes:' + label,
+                          '%s: no response after %d polls although nothing can change any more (final states %s)' % (what, res['polls'], final), inp)
+        else:
+            ctx.count('wait2:pending-on-a-process-that-must-move-on')
+        return
+    if res.get('status') == 500:
+        ctx.violation('http-500:' + method, '%s produced an HTTP 500' % what, inp)
+        return
+    if res.get('status') != 200 or res['answer'][0] == 'unparseable':
+        if res.get('status') != 'no-response':
+            ctx.violation('http-error:' + method, '%s produced HTTP %s / %s' % (what, res.get('status'), res.get('answer')), inp)
+        return
+    ans = res['answer']
+    def el(x):
+        return ('fault', x['faultCode']) if isinstance(x, dict) and 'faultCode' in x else ('value', x)
+    raw = [el(x) for x in ans[1]] if (multi and ans[0] == 'value' and isinstance(ans[1], list)) else [(ans[0], ans[1])]
+    for (m, p), g in zip(calls, raw):
+        if g[0] == 'fault' and g[1] not in codes:
+            ctx.violation('undocumented-fault-code', '%s: %s answered fault %r' % (what, m, g[1]), inp)
+        elif g[0] == 'value' and not doc_shape_ok(m, p, g[1]):
+            ctx.violation('value-shape:' + m, '%s: %s answered %s' % (what, m, short(g[1])), inp)
+    def strip_pid(x):       # the two worlds hand out the same pids; wall-clock fields are removed by norm_value
+        return x
+    got = [(k, v if k == 'fault' else norm_value(v)) for k, v in raw]
+    want = [(r[0], r[1]) if r != 'never' else ('never',) for r in ref]
+    if got != want:
+        ctx.violation('multicall-differs-from-sequential' if multi else 'wire-answer-differs-from-direct:' + method,
+                      '%s answered %s; the calls made one after another (each polled to completion) answer %s' % (what, short(got, 300), short(want, 300)), inp)
+
+
+def gen_events(rng, names, n):
+    evs = []
+    for _ in range(n):
+        nm = rng.choice(names)
+        r = rng.random()
+        if r < 0.3:
+            evs.append(['rpc', 'supervisor.stopProcess', ['grp:' + nm, False]])
+        elif r < 0.4:
+            evs.append(['rpc', 'supervisor.startProcess', ['grp:' + nm, False]])
+        elif r < 0.5:
+            evs.append(['rpc', rng.choice(['supervisor.stopAllProcesses', 'supervisor.startAllProcesses']), [False]])
+        elif r < 0.7:
+            evs.append(['exit', nm, rng.choice([0, 1, 15, 9, 256, 512])])
+        elif r < 0.9:
+            evs.append(['age', nm])
+        else:
+            evs.append(['killfail', rng.random() < 0.7])
+    return evs
+
+
+def run_waits2(ctx):
+    rng = ctx.rng
+    running = lambda names: [ev for n in names for ev in (['rpc', 'supervisor.startProcess', ['grp:' + n, False]], ['age', n])]
+    # ---- regression corpus: the interleaving of seeded change C12-5 (demo.py): A starts and waits, B stops the process while
+    #      it is STARTING, the child is reaped; and its variants (the kill fails: UNKNOWN; the group / all / multicall forms)
+    stop_b = ['rpc', 'supervisor.stopProcess', ['grp:p0', False]]
+    for calls in ([('supervisor.startProcess', ['grp:p0'])], [('supervisor.startProcess', ['grp:p0', True])], [('supervisor.startProcessGroup', ['grp', True])],
+                  [('supervisor.startAllProcesses', [])], [('supervisor.startProcess', ['grp:*', True])],
+                  [('supervisor.getPID', []), ('supervisor.startProcess', ['grp:p0', True]), ('supervisor.getState', [])]):
+        for events in ([stop_b, ['exit', 'p0', 15]], [stop_b], [['killfail', True], stop_b], [['rpc', 'supervisor.stopAllProcesses', [False]]],
+                       [['rpc', 'supervisor.stopProcessGroup', ['grp', False]], ['exit', 'p0', 9]], [['exit', 'p0', 1]], [['age', 'p0']], []):
+            two_client_case(ctx, calls, ['p0'], [], events, regression='C12-5')
+    # ---- random interleavings
+    for _ in range(ctx.n(150, 2000)):
+        names = ['p%d' % i for i in range(rng.randrange(1, 4))]
+        kind = rng.choice(['start', 'stop'])
+        pre = running(rng.sample(names, rng.randrange(0, len(names) + 1))) if kind == 'start' else running(names if rng.random() < 0.7 else rng.sample(names, 1))
+        nm = rng.choice(names)
+        forms = {'start': [('supervisor.startProcess', ['grp:' + nm, True]), ('supervisor.startProcess', ['grp:' + nm]), ('supervisor.startProcessGroup', ['grp', True]),
+                           ('supervisor.startAllProcesses', [True]), ('supervisor.startProcess', ['grp:*', True])],
+                 'stop': [('supervisor.stopProcess', ['grp:' + nm, True]), ('supervisor.stopProcess', ['grp:' + nm]), ('supervisor.stopProcessGroup', ['grp', True]),
+                          ('supervisor.stopAllProcesses', [True]), ('supervisor.stopProcess', ['grp:*', True])]}[kind]
+        calls = [rng.choice(forms)]
+        if rng.random() < 0.3:
+            calls = [rng.choice(forms + [('supervisor.getPID', []), ('supervisor.getProcessInfo', ['grp:' + nm])]) for _ in range(rng.randrange(2, 4))]
+        two_client_case(ctx, calls, names, pre, gen_events(rng, names, rng.randrange(0, 6)), cuts=None)
+
+
+
+# =================================================================================================
+# the log files behind the log methods: a state dimension
+#   Every log-related method is called for a process (and a daemon) whose log file of each channel is: there with contents /
+#   there and empty / not there yet (never started, just added) or removed from outside / configured NONE / a directory.
+# =================================================================================================
+LOG_STATES = ['present', 'empty', 'never', 'none', 'directory']
+LOG_METHODS = ['readProcessStdoutLog', 'readProcessStderrLog', 'readProcessLog', 'tailProcessStdoutLog', 'tailProcessStderrLog', 'tailProcessLog',
+               'clearProcessLogs', 'clearProcessLog', 'clearAllProcessLogs', 'readLog', 'readMainLog', 'clearLog',
+               'getProcessInfo', 'getAllProcessInfo', 'getAllConfigInfo']
+
+
+def log_path(ctx, state, tag):
+    """a path in the scratch directory that is in `state` now"""
+    if state == 'none':
+        return None
+    path = os.path.join(ctx.scratch, 'logstate-%s-%s' % (tag, state))
+    if state == 'present' and not os.path.exists(path):
+        open(path, 'wb').write(b'line one\nb\xc3\xa9\xe2\x82\xac\xff tail\n')
+    elif state == 'empty' and not os.path.exists(path):
+        open(path, 'wb').close()
+    elif state == 'directory' and not os.path.isdir(path):
+        os.mkdir(path)
+    elif state == 'never' and os.path.exists(path):
+        os.remove(path)
+    return path
+
+
+def log_prepare(ctx, logstate):
+    """-> prepare(sup): the process's stdout/stderr log files and the daemon's main log are put into the given states"""
+    def prepare(sup):
+        for grp in sup.process_groups.values():
+            for pr in grp.processes.values():
+                for ch in ('stdout', 'stderr'):
+                    if ch in logstate:
+                        setattr(pr.config, ch + '_logfile', log_path(ctx, logstate[ch], ch))
+        if 'main' in logstate:
+            sup.options.logfile = log_path(ctx, logstate['main'], 'main')
+    prepare.logstate = logstate
+    return prepare
+
+
+def log_args(rng, func):
+    """arguments for a log method: the process, and offset/length drawn from the windows that matter for a small file and
+    from the 32-bit edges"""
+    from supervisor.xmlrpc import gettags
+    args = []
+    for t in gettags(func.__doc__ or ''):
+        if t[1] != 'param':
+            continue
+        if t[2] == 'string':
+            args.append(rng.choice(['grp:proc'] * 6 + ['proc', 'grp:*', 'grp:nosuch', '']))
+        elif t[2] == 'int':
+            args.append(rng.choice([0, 0, 1, 5, 100, -1, -5, 2**31 - 1, -2**31]))
+        elif t[2] == 'boolean':
+            args.append(rng.random() < 0.5)
+    return args
+
+
+def run_logstates(ctx):
+    from supervisor import xmlrpc
+    rng = ctx.rng
+    sup, iface, h = e2e_world(ctx)
+    # ---- regression corpus: seeded change C12-6 (demo.py) -- tail of a channel that has no log file: not there yet, NONE, and
+    #      with 32-bit edge offset/length; alone and as elements of one system.multicall
+    demo = [('supervisor.tailProcessStdoutLog', ['grp:proc', 0, 100]), ('supervisor.tailProcessStderrLog', ['grp:proc', 0, 100]),
+            ('supervisor.tailProcessLog', ['grp:proc', 2**31 - 1, -2**31])]
+    for st in ('never', 'none'):
+        for m, p in demo:
+            e2e_case(ctx, m, p, 1, {'logstate': {'stdout': st, 'stderr': st}, 'regression': 'C12-6'})
+        e2e_multi_case(ctx, demo, {'stdout': st, 'stderr': st})
+    # ---- every log method x every state of the file it reads (the other channel and the main log drawn at random)
+    for name in LOG_METHODS:
+        func = getattr(iface, name)
+        for st in LOG_STATES:
+            for _ in range(ctx.n(1, 6)):
+                ls = {'stdout': rng.choice(LOG_STATES), 'stderr': rng.choice(LOG_STATES), 'main': rng.choice(LOG_STATES)}
+                ls['main' if name in ('readLog', 'readMainLog', 'clearLog') else 'stderr' if 'Stderr' in name else 'stdout'] = st
+                if name in ('clearProcessLogs', 'clearProcessLog', 'clearAllProcessLogs', 'getProcessInfo', 'getAllProcessInfo', 'getAllConfigInfo'):
+                    ls['stderr'] = st if rng.random() < 0.5 else ls['stderr']
+                e2e_case(ctx, 'supervisor.' + name, log_args(rng, func), rng.choice([1, 1, 1, 2, 0, -1]), {'logstate': ls, 'frag': rng.random() < 0.25})
+                ctx.count('logstate:%s=%s' % (name, st))
+    # ---- system.multicall of log calls == the same calls one by one, in every state
+    for _ in range(ctx.n(25, 300)):
+        ls = {'stdout': rng.choice(LOG_STATES), 'stderr': rng.choice(LOG_STATES), 'main': rng.choice(LOG_STATES)}
+        picks = []
+        for _ in range(rng.randrange(1, 5)):
+            name = rng.choice([n for n in LOG_METHODS if not n.startswith('clear')] + ['getPID'])
+            picks.append(('supervisor.' + name, log_args(rng, getattr(iface, name))))
+        e2e_multi_case(ctx, picks, ls)
+
+
+
+# ---- the same dimension on a REAL daemon: real ServerOptions on a configuration file, real Supervisor, groups, Subprocess
+#      objects, output dispatchers and loggers (no child is ever forked).  A program's channel logs to an explicit file, to an
+#      AUTO file in childlogdir, to NONE, or (redirect_stderr) to the other channel's file; the process has never been started
+#      (`fresh`: an explicit file does not exist yet), or runs with its log files open (`running`), and then its files
+#      (`running-removed`) or the whole log directory (`running-dir-removed`) are removed from outside.
+LOGS_SCENARIOS = ['fresh', 'running', 'running-removed', 'running-dir-removed']
+LOGS_PROGRAMS = ['plog', 'pnone', 'pauto', 'predir']
+
+
+class LogsWorld:
+    def __init__(self, ctx, scenario, mood, tag='l'):
+        import io, tempfile, shutil
+        from supervisor.options import ServerOptions
+        from supervisor.supervisord import Supervisor
+        from supervisor.rpcinterface import SupervisorNamespaceRPCInterface
+        from supervisor.states import ProcessStates
+        from supervisor import xmlrpc, events
+        events.clear()
+        self.dir = d = tempfile.mkdtemp(prefix=tag, dir=ctx.scratch)
+        os.mkdir(os.path.join(d, 'logs'))
+        self.conf = os.path.join(d, 's.conf')
+        open(self.conf, 'w').write(
+            ('[supervisord]\nchildlogdir=%(d)s/logs\nlogfile=%(d)s/logs/sd.log\npidfile=%(d)s/sd.pid\nidentifier=verif\n'
+             '[program:plog]\ncommand=/bin/cat\nstdout_logfile=%(d)s/logs/plog.out\nstderr_logfile=%(d)s/logs/plog.err\n'
+             '[program:pnone]\ncommand=/bin/cat\nstdout_logfile=NONE\nstderr_logfile=NONE\n'
+             '[program:pauto]\ncommand=/bin/cat\n'
+             '[program:predir]\ncommand=/bin/cat\nredirect_stderr=true\nstdout_logfile=%(d)s/logs/predir.out\n') % {'d': d})
+        o = self.options = ServerOptions()
+        o.configfile = self.conf
+        o.stderr = io.StringIO(); o.stdout = io.StringIO()
+        o.process_config(do_usage=False)
+        o.make_logger()
+        self.sup = Supervisor(o)
+        for c in o.process_group_configs:
+            self.sup.add_process_group(c)
+        self.opened = []
+        if scenario != 'fresh':
+            for i, name in enumerate(LOGS_PROGRAMS):
+                pr = self.sup.process_groups[name].processes[name]
+                pr.dispatchers, pr.pipes = pr.config.make_dispatchers(pr)
+                pr.pid, pr.state, pr.laststart = 7000 + i, ProcessStates.RUNNING, 1000000
+                self.opened.append(pr)
+                for ch in ('stdout', 'stderr'):
+                    path = getattr(pr.config, ch + '_logfile')
+                    if path and not (ch == 'stderr' and pr.config.redirect_stderr):
+                        open(path, 'ab').write(b'%s %s one\nb\xc3\xa9\xe2\x82\xac\xff tail\n' % (name.encode(), ch.encode()))
+            if scenario == 'running-removed':
+                for pr in self.opened:
+                    for ch in ('stdout', 'stderr'):
+                        path = getattr(pr.config, ch + '_logfile')
+                        if path and os.path.exists(path):
+                            os.remove(path)
+                os.remove(o.logfile)
+            elif scenario == 'running-dir-removed':
+                shutil.rmtree(os.path.join(d, 'logs'))
+        o.mood = mood
+        self.iface = SupervisorNamespaceRPCInterface(self.sup)
+        self.subs = [('supervisor', self.iface)]
+        self.subs.append(('system', xmlrpc.SystemNamespaceRPCInterface(self.subs)))
+        self.handler = xmlrpc.supervisor_xmlrpc_handler(self.sup, self.subs)
+
+    def close(self):
+        from supervisor import events
+        events.clear()
+        for pr in self.opened:
+            for dsp in list(pr.dispatchers.values()):
+                for log in (getattr(dsp, 'normallog', None), getattr(dsp, 'capturelog', None)):
+                    if log is not None:
+                        try: log.close()
+                        except Exception: pass
+                try: self.options.close_fd(dsp.fd)
+                except Exception: pass
+            try: self.options.close_child_pipes(pr.pipes)
+            except Exception: pass
+        try: self.options.logger.close()
+        except Exception: pass
+
+
+def logs_norm(w, x):
+    """an answer without what legitimately differs between two daemons: their directories, AUTO log names, timestamps"""
+    if isinstance(x, str):
+        x = x.replace(w.dir, '<d>')
+        x = re.sub(r'---(\w+)-\w+\.log', r'---\1-X.log', x)
+        return re.sub(r'\d{4}-\d\d-\d\d \d\d:\d\d:\d\d,\d{3}', 'T', x)
+    if isinstance(x, (list, tuple)):
+        return [logs_norm(w, y) for y in x]
+    if isinstance(x, dict):
+        return dict((k, logs_norm(w, v)) for k, v in x.items() if k not in ('now', 'description'))
+    return x
+
+
+def logs_case(ctx, scenario, mood, picks):
+    """the calls one by one over the wire to one real daemon, then as ONE system.multicall to a twin daemon"""
+    from supervisor import xmlrpc
+    codes = set(v for k, v in vars(xmlrpc.Faults).items() if not k.startswith('_'))
+    inp = {'part': 'logs', 'scenario': scenario, 'mood': mood, 'calls': [[m, p] for m, p in picks]}
+    w = LogsWorld(ctx, scenario, mood)
+    singles = []
+    try:
+        for k, (m, p) in enumerate(picks):
+            if m == 'system.multicall':
+                singles.append(('fault', xmlrpc.Faults.INCORRECT_PARAMETERS)); continue
+            res = wire_request(w.handler, m, p, replay_input=dict(inp, failing_op=k))
+            out = ('http', res.get('status')) if res.get('status') != 200 else res['answer']
+            ctx.count('logs:%s:%s' % (m.split('.')[-1], out[0] + (':%s' % out[1] if out[0] in ('fault', 'http') else '')))
+            ctx.count('logs:scenario=' + scenario)
+            ctx.case_done(('logs', scenario, mood, repr(picks[:k + 1])), nontrivial=True)
+            what = '%s%s on a real daemon, log files %r, mood %d' % (m, short(tuple(p)), scenario, mood)
+            vinp = dict(inp, failing_op=k)
+            if out[0] == 'http' and out[1] == 500:
+                ctx.violation('http-500:' + m, '%s produced an HTTP 500' % what, vinp)
+            elif out[0] == 'http':
+                ctx.violation('http-error:' + m, '%s produced HTTP %s' % (what, out[1]), vinp)
+            elif out[0] == 'unparseable':
+                ctx.violation('response-unparseable:' + m, '%s: the response body cannot be parsed (%s)' % (what, out[1]), vinp)
+            elif out[0] == 'fault' and out[1] not in codes:
+                ctx.violation('undocumented-fault-code', '%s answered fault %r' % (what, out[1]), vinp)
+            elif out[0] == 'value' and not doc_shape_ok(m, p, out[1]):
+                ctx.violation('value-shape:' + m, '%s answered %s' % (what, short(out[1])), vinp)
+            if mood < 1 and m.startswith('supervisor.') and m.split('.')[-1] in LOG_METHODS and out != ('fault', xmlrpc.Faults.SHUTDOWN_STATE):
+                ctx.violation('ungated-while-shutting-down:' + m.split('.')[-1], '%s answered %r' % (what, out), vinp)
+            singles.append((out[0], logs_norm(w, out[1])) if out[0] == 'value' else out)
+    finally:
+        w.close()
+    t = LogsWorld(ctx, scenario, mood, tag='m')
+    try:
+        res = wire_request(t.handler, 'system.multicall', [[{'methodName': m, 'params': p} for m, p in picks]], replay_input=inp)
+        ctx.count('logs:multicall')
+        if res.get('status') != 200 or res['answer'][0] != 'value':
+            ctx.violation('http-500:system.multicall' if res.get('status') == 500 else 'http-error:system.multicall',
+                          'system.multicall%s on a real daemon, log files %r: HTTP %s %s' % (short(picks), scenario, res.get('status'), res.get('answer')), inp)
+            return
+        got = [('fault', x['faultCode']) if isinstance(x, dict) and 'faultCode' in x else ('value', logs_norm(t, x)) for x in res['answer'][1]]
+    finally:
+        t.close()
+    if got != singles and not any(o[0] in ('http', 'unparseable') for o in singles):
+        k = next((i for i in range(min(len(got), len(singles))) if got[i] != singles[i]), min(len(got), len(singles)))
+        ctx.violation('multicall-differs-from-sequential', 'real daemon, log files %r, mood %d: element %d (%s%s) of system.multicall is %s, the call made on its own answers %s'
+                      % (scenario, mood, k, picks[k][0] if k < len(picks) else '?', short(tuple(picks[k][1])) if k < len(picks) else '', short(got[k] if k < len(got) else None),
+                         short(singles[k] if k < len(singles) else None)), inp)
+    elif got != singles:
+        ctx.violation('multicall-differs-from-sequential', 'real daemon, log files %r, mood %d: system.multicall answers %s, the calls made one by one %s'
+                      % (scenario, mood, short(got, 300), short(singles, 300)), inp)
+
+
+def gen_log_call(rng, iface):
+    name = rng.choice(LOG_METHODS)
+    args = log_args(rng, getattr(iface, name))
+    if args and isinstance(args[0], str):
+        pn = rng.choice(LOGS_PROGRAMS)
+        args[0] = rng.choice([pn + ':' + pn] * 5 + [pn, pn + ':*', 'nosuch', pn + ':nosuch'])
+    return ('supervisor.' + name, args)
+
+
+def run_logs_real(ctx):
+    rng = ctx.rng
+    sup, iface, h = e2e_world(ctx)
+    # ---- regression corpus: seeded change C12-6 on a real daemon -- tail of every channel of every program that was never started
+    logs_case(ctx, 'fresh', 1, [('supervisor.tailProcessStdoutLog', [pn + ':' + pn, 0, 100]) for pn in LOGS_PROGRAMS] +
+              [('supervisor.tailProcessStderrLog', [pn + ':' + pn, 0, 100]) for pn in LOGS_PROGRAMS])
+    # ---- every scenario: every log method of every program, then random compositions
+    for scenario in LOGS_SCENARIOS:
+        for pn in LOGS_PROGRAMS:
+            nm = pn + ':' + pn
+            logs_case(ctx, scenario, 1, [('supervisor.readProcessStdoutLog', [nm, 0, 0]), ('supervisor.readProcessStderrLog', [nm, -5, 0]),
+                                         ('supervisor.tailProcessStdoutLog', [nm, 0, 10]), ('supervisor.tailProcessStderrLog', [nm, 3, 2**31 - 1]),
+                                         ('supervisor.getProcessInfo', [nm]), ('supervisor.clearProcessLogs', [nm]),
+                                         ('supervisor.tailProcessStdoutLog', [nm, 0, 10]), ('supervisor.readProcessStdoutLog', [nm, 0, 5])])
+        logs_case(ctx, scenario, 1, [('supervisor.readLog', [0, 0]), ('supervisor.readLog', [-20, 0]), ('supervisor.getAllProcessInfo', []),
+                                     ('supervisor.getAllConfigInfo', []), ('supervisor.clearAllProcessLogs', []), ('supervisor.clearLog', []),
+                                     ('supervisor.readLog', [0, 0]), ('supervisor.clearLog', [])])
+    for _ in range(ctx.n(12, 200)):
+        logs_case(ctx, rng.choice(LOGS_SCENARIOS), rng.choice([1, 1, 1, 1, 2, 0, -1]), [gen_log_call(rng, iface) for _ in range(rng.randrange(1, 6))])
+
+
 def run_frames(ctx):
     """the framing of every response seen on the wire vs the model of the response builders"""
     seen, ops, il = set(), [], []
@@ -1887,8 +2755,12 @@ def run(ctx):
     del _FRAMES[:]
     del _BODIES[:]
     run_e2e(ctx)
+    run_logstates(ctx)
     run_frag(ctx)
     run_e2e_deferred(ctx)
+    run_waits(ctx)
+    run_waits2(ctx)
+    run_logs_real(ctx)
     run_groups(ctx)
     run_collect(ctx)
     run_frames(ctx)
@@ -1920,7 +2792,7 @@ def replay(ctx, data):
     elif part == 'gate':
         gate_case(ctx, inp['name'], inp['mood'], inp['args'], set(doc_sections().get('Process Control', [])))
     elif part in ('e2e', 'e2e-wire'):
-        extra = dict((k, v) for k, v in inp.items() if k in ('expect', 'expect_kind', 'no_direct', 'regression'))
+        extra = dict((k, v) for k, v in inp.items() if k in ('expect', 'expect_kind', 'no_direct', 'regression', 'logstate'))
         prepare = make_stdin_full_process if inp.get('regression') == 'F21' else None
         if inp['method'].startswith('slow.') or any(isinstance(c, dict) and str(c.get('methodName', '')).startswith('slow.')
                                                     for p_ in inp['params'] if isinstance(p_, list) for c in p_):
@@ -1932,9 +2804,9 @@ def replay(ctx, data):
         else:
             e2e_case(ctx, inp['method'], inp['params'], inp.get('mood', 1), extra, prepare)
     elif part == 'e2e-multi':
-        e2e_multi_case(ctx, [(m, p) for m, p in inp['calls']])
+        e2e_multi_case(ctx, [(m, p) for m, p in inp['calls']], inp.get('logstate'))
     elif part == 'e2e-frag':
-        prepare = make_stdin_full_process if inp.get('regression') == 'F21' else None
+        prepare = make_stdin_full_process if inp.get('regression') == 'F21' else log_prepare(ctx, inp['logstate']) if inp.get('logstate') else None
         sup, iface, h = e2e_world(ctx, inp.get('mood', 1))
         if prepare:
             prepare(sup)
@@ -1945,6 +2817,12 @@ def replay(ctx, data):
         groups_case(ctx, inp['scenario'], inp['mood'], [(m, p) for m, p in inp['ops']], tuple(inp.get('started', ('multi',))))
     elif part == 'e2e-session':
         session_case(ctx, [(m, p) for m, p in inp['reqs']], inp.get('mood', 1), plans=inp['plans'])
+    elif part == 'wait':
+        wait_case(ctx, [(m, p) for m, p in inp['calls']], inp['scripts'], inp.get('cuts'), inp.get('regression'))
+    elif part == 'logs':
+        logs_case(ctx, inp['scenario'], inp['mood'], [(m, p) for m, p in inp['calls']])
+    elif part == 'wait2':
+        two_client_case(ctx, [(m, p) for m, p in inp['calls']], inp['names'], inp['pre'], inp['events'], inp.get('cuts'), inp.get('regression'))
     elif part == 'e2e-deferred':
         if inp.get('case') == 'slow':
             deferred_slow_case(ctx, inp['k'], inp['kind'], inp['in_multicall'], inp.get('cuts'))
